@@ -962,6 +962,8 @@ class Generator:
 
         if self.pretty:
             sql = sql.replace(self.SENTINEL_LINE_BREAK, "\n")
+            # normalize_functions="lower" lower-cases an already rendered quoted function name, sentinel included
+            sql = sql.replace(self.SENTINEL_LINE_BREAK.lower(), "\n")
 
         if self.unsupported_level == ErrorLevel.IGNORE:
             return sql
